@@ -99,7 +99,7 @@ pub fn drain(
     let (mut flag, mut waker) = new_waker();
     let mut extra_left = overpoll;
     let mut stopped = false;
-    let max_polls = 4000;
+    let max_polls = 200_000;
     loop {
         if log.steps.len() >= max_polls {
             log.too_many_polls = true;
